@@ -106,6 +106,48 @@ def run_explored(cfg):
     return r.dump()
 
 
+def run_convert(arg):
+    """Aspire.convert_to_samples(x, evaluate=True): prior first, then likelihood on the same points with the prior attached."""
+    ns, given = arg
+    from aspire import Aspire
+    from env import get_xp
+    from env import resume_harness as rh
+    from env.flows import AnalyticFlow
+    from env.targets import Monitor
+
+    r = Report()
+    case = {"convert_to_samples": True, "ns": ns, "given": given}
+    r.case(explorer.digest(case), nontrivial=True)
+    p = rh.problem("tight")
+    mon = Monitor(p["like"], p["prior"], ns, keep_points=True)
+    flow = AnalyticFlow(2, seed=5, xp_name=ns, **p["flow"])
+    a = Aspire(log_likelihood=mon.log_likelihood, log_prior=mon.log_prior, dims=2, parameters=p["parameters"],
+               prior_bounds=p["bounds"], flow=flow, xp=get_xp(ns))
+    x, lq = flow.sample_and_log_prob(9)
+    kw = {"log_q": lq}
+    xp = get_xp(ns)
+    if given == "prior":
+        kw["log_prior"] = xp.asarray(p["prior"](np.asarray(x.detach().cpu() if hasattr(x, "detach") else x)))
+    try:
+        s = a.convert_to_samples(x, evaluate=True, **kw)
+    except Exception as e:
+        from env import exc_site
+
+        r.violation(f"C17/convert_to_samples/raises/{type(e).__name__}/{exc_site(e)}/{ns}", repr(e)[:200], case)
+        return r.dump()
+    kinds = [c["kind"] for c in mon.calls]
+    want = ["like"] if given == "prior" else ["prior", "like"]
+    if kinds != want:
+        r.violation(f"C17/convert_to_samples/call-order/{ns}", {"calls": kinds, "want": want}, case)
+    for v in sorted(set(v[0] for v in mon.violations)):
+        r.violation(f"C17/convert_to_samples/{v}/{ns}", None, case)
+    if s.log_w is None or s.log_evidence is None:
+        r.violation(f"C17/convert_to_samples/not-weighted/{ns}", None, case)
+    r.outcomes.add(("convert", ns, given))
+    r.sample(case)
+    return r.dump()
+
+
 def dispatch(job):
     return globals()[job[0]](job[1])
 
@@ -114,9 +156,11 @@ def configs(tier, seed):
     out = []
     seeds = sorted({0, seed})
     for sampler in ("importance", "emcee", "minipcn", "smc", "emcee_smc"):
-        nss = ("numpy", "torch") if sampler in ("importance", "smc", "minipcn") else ("numpy",)
-        if sampler == "smc" and tier == "thorough":
+        nss = ("numpy", "torch") if sampler in ("importance", "smc", "minipcn", "emcee_smc") else ("numpy",)
+        if sampler in ("smc", "emcee_smc") and tier == "thorough":
             nss = ("numpy", "torch", "jax")
+        if sampler == "emcee" and tier == "thorough":
+            nss = ("numpy", "torch")
         for precond, ns, sd in itertools.product(("none", "tight", "periodic", "logit_affine", "probit"), nss, seeds):
             if sampler == "importance" and precond != "none":
                 continue
@@ -135,11 +179,20 @@ def configs(tier, seed):
                                     "ns": "numpy", "mcmc_opts": mo}))
         out.append(("run_one", {"sampler": "emcee", "N": 8, "opts": {}, "cadence": 1, "n_final": None, "precond": precond, "seed": 0,
                                 "ns": "numpy", "mcmc_opts": {"discard": 1}}))
+    # runs inside Aspire.enable_pool (likelihood only / likelihood and prior evaluated through the pool's map)
+    for sampler in ("importance", "emcee", "minipcn", "smc", "emcee_smc"):
+        for pool in (True, "prior"):
+            out.append(("run_one", {"sampler": sampler, "N": 8, "opts": {"adaptive": True, "target_efficiency": 0.8} if sampler in ("smc", "emcee_smc") else {},
+                                    "cadence": 1, "n_final": 12 if sampler in ("smc", "emcee_smc") else None, "precond": "tight" if sampler != "importance" else "none",
+                                    "seed": 0, "ns": "numpy", "pool": pool}))
     for pre in ("none", "logit") if tier == "quick" else ("none", "logit", "affine"):
         out.append(("run_one", {"sampler": "blackjax_smc", "N": 8, "seed": 0, "opts": {"adaptive": True, "target_efficiency": 0.8},
                                 "n_final": 12, "precond": pre}))
         out.append(("run_one", {"sampler": "blackjax_smc", "N": 8, "seed": 0, "opts": {"adaptive": False, "n_steps": 2},
                                 "n_final": None, "precond": pre}))
+    for ns in ("numpy", "torch", "jax"):
+        for given in ("nothing", "prior"):
+            out.append(("run_convert", (ns, given)))
     for opts in ({"adaptive": True}, {"adaptive": True, "target_efficiency": 0.9}, {"adaptive": False, "n_steps": 3},
                  {"adaptive": True, "n_final_samples": 6}):
         for sampler in ("smc", "emcee_smc"):
@@ -150,7 +203,7 @@ def configs(tier, seed):
 def run(tier, seed, workers):
     rep = Report()
     jobs = configs(tier, seed)
-    jobs.sort(key=lambda j: 0 if j[1].get("sampler") == "blackjax_smc" else 1)
+    jobs.sort(key=lambda j: 0 if isinstance(j[1], dict) and j[1].get("sampler") == "blackjax_smc" else 1)
     for d in pmap("checks.c17", "dispatch", jobs, workers):
         rep.merge(d)
     rep.count("jobs", len(jobs))
@@ -163,6 +216,8 @@ def replay(case):
         from checks.c06 import _fix
 
         r.merge(run_explored(_fix(case["cfg"])))
+    elif case.get("convert_to_samples"):
+        r.merge(run_convert((case["ns"], case["given"])))
     else:
         cfg = case["cfg"]
         te = cfg.get("opts", {}).get("target_efficiency")
